@@ -249,7 +249,7 @@ Definition put_rdataset (c : cfg) (v : version) (n : name) (r : rds) : res versi
   let '(v1, nd, k) := x in
   Ok (mkVer (map_set (v_nodes v1) k (node_replace nd r)) (v_changed v1)).
 
-(* WritableVersion.delete_rdataset (after fix ea85fed: the emptied node is deleted under the validated name) *)
+(* WritableVersion.delete_rdataset (after fix 2d6b3bb: the emptied node is deleted under the validated name) *)
 Definition delete_rdataset (c : cfg) (v : version) (n : name) (ty cov : Z) : res version :=
   do x <- maybe_cow c v n;
   let '(v1, nd, k) := x in
@@ -406,7 +406,7 @@ Definition make_type (a : arg) : res Z :=
   | _ => Lib eTypeError
   end.
 
-(* the SOA owner test of _add (after fix 0d85552): name == effective origin, or the absolute origin, or
+(* the SOA owner test of _add (after fix e445852): name == effective origin, or the absolute origin, or
    the empty name *)
 Definition origin_ok (c : cfg) (n : name) : bool :=
   let effective := if c_rel c then NameM.empty else c_origin c in
